@@ -126,6 +126,23 @@ class CallMixin:
     def call_uninterpreted(self, name, args, st, fr, node):
         """a parameter of function type: deterministic uninterpreted real function of its scalar arguments"""
         from .nplib import ufunc
+        if any(self.is_arr(a, st) for a in args):
+            # applied to arrays: element-wise (the integrands of the statement are evaluated point by point)
+            arrs = [a for a in args if self.is_arr(a, st)]
+            n, _ = self.arr_term(st, arrs[0])
+            i = z3.Int("i!f")
+            zs = []
+            for a in args:
+                if self.is_arr(a, st):
+                    na, ta = self.arr_term(st, a)
+                    if not fr.spec:
+                        self.oblige(st, to_z3(na, "int") == to_z3(n, "int"), "safety", "same-length-arguments", node, fr)
+                    zs.append(self.coerce_term(ta[i], st.get(a).kind, "real"))
+                else:
+                    zs.append(to_z3(a, "real"))
+            f = ufunc("param_" + name, *([R] * (len(zs) + 1)))
+            self.use("a parameter of function type applied to arrays acts element-wise and deterministically")
+            return st.alloc(HArr("real", n, z3.Lambda([i], f(*zs)), fresh=True))
         zs = [to_z3(a, "real") for a in args]
         f = ufunc("param_" + name, *([R] * (len(zs) + 1)))
         return f(*zs)
